@@ -779,7 +779,11 @@ def merge(*signatures):
             ret = SortedParameters(*_Merger(ret, sorted_params))
         except ValueError:
             raise IncompatibleSignatures(sig, signatures[:i])
-    ret_sig = apply_params(signatures[0], *ret, _stacklevel=1)
+    try:
+        ret_sig = apply_params(signatures[0], *ret, _stacklevel=1)
+    except ValueError:
+        # two parameters of one name ended up in the result
+        raise IncompatibleSignatures(signatures[-1], signatures[:-1])
     return ret_sig
 
 
@@ -891,7 +895,11 @@ def embed(*signatures, use_varargs=True, use_varkwargs=True, _stacklevel=0):
                          use_varargs, use_varkwargs, i)
         except ValueError:
             raise IncompatibleSignatures(sig, signatures[:i])
-    return apply_params(signatures[0], *ret, _stacklevel=_stacklevel + 1)
+    try:
+        return apply_params(signatures[0], *ret, _stacklevel=_stacklevel + 1)
+    except ValueError:
+        # two parameters of one name ended up in the result
+        raise IncompatibleSignatures(signatures[-1], signatures[:-1])
 
 
 def _pop_chain(*sequences):
